@@ -348,6 +348,8 @@ class Cmd:
             a.append("-m")
         if self.names_only:
             a.append("-s")
+        if self.attrs.get("x-link-outputs"):
+            a.append("-L")
         if self.deps:
             flag = "-d" if self.deps[1].startswith("makefile") else "-i"
             paths = [self.deps[0]] if isinstance(self.deps[0], str) else list(self.deps[0])
@@ -499,7 +501,7 @@ class Desc:
             if c.tool == "symlink":
                 L.append("    contents: %s" % yq(c.contents))
             for k, v in c.attrs.items():
-                if k != "description":
+                if k != "description" and not k.startswith("x-"):
                     L.append("    %s: %s" % (k, v if v in ("true", "false") else yq(v)))
         return "\n".join(L) + "\n"
 
